@@ -18,7 +18,8 @@ THEOREMS = ['C14_scale_roundtrips', 'C14_scale_units', 'C14_scale_mono', 'C14_fa
             'C14_bounds_in_value_units', 'C14_merit_function', 'C14_fixed_state_is_returned_solution',
             'C14_fixed_merit_is_returned_objective', 'C14_fixed_not_worse', 'C14_fixed_within_bounds',
             'C14_fixed_pickups_solves_satisfied', 'C14_impl_state', 'C14_undo_restores',
-            'C14_undo_restores_impl_partial', 'C14_upd_pickups_hypotheses']
+            'C14_undo_restores_impl_partial', 'C14_upd_pickups_hypotheses',
+            'C14_update_optics_each_owner_once', 'C14_update_optics_satisfies_every_owner']
 COQ_TARGETS = ['Model/M_C14.vo', 'Lemmas/L_C14.vo']
 TRUSTED_BASE = BASE_TRUSTED + [
     'hand model coq/Model/M_C14.v (lens = map from parameter coordinates to values; optimise/undo state machine), '
@@ -42,7 +43,9 @@ RULE = ('kernels: seeded values in [-1e3,1e3] plus 0/inf/nan, coefficient number
         'nine variable types, scaled/unscaled, bounded/unbounded; five front ends (DE with workers=1 and 2), sequences '
         'of optimise/undo incl. optimise/optimise/undo/undo; boundary block: min_val/max_val in {0, -0.0, negative, equal, '
         '= current value, None} for every variable class scaled and unscaled, and optimiser runs with a variable at 0 '
-        'whose limit is 0 and the optimum beyond it; non-trivial = the optimiser moved at least one variable')
+        'whose limit is 0 and the optimum beyond it; multi-optic block: one problem over 2-3 lenses, variables interleaved in '
+        'orders AAB ABA BBA AABC BAAC AB CCBAB ABBCA BABA, pickup and/or marginal-ray-height solve on every lens, every front end, '
+        'contract checked per optic (update() calls per optic, state, merit, bounds, pickup and solve residuals, undo); non-trivial = the optimiser moved at least one variable')
 PARTIAL = [
     'the state/merit/not-worse/bounds/undo theorems are about the REPAIRED optimize()/undo() (optimize_fixed, undo_fixed); '
     'for the code as written the same statements are refuted (coq/Findings/F_C14.v) and listed as findings',
@@ -901,6 +904,210 @@ def opt_oracle(c, o, bad, ci, hist):
     return out
 
 
+# ---------------------------------------------------------------------------------------------
+# problems spanning several optics (multi-configuration / lens families): variables interleaved in arbitrary
+# orders with repeats, pickups and solves on each lens; the return contract is checked PER OPTIC
+# ---------------------------------------------------------------------------------------------
+ORDERS = [[0, 0, 1], [0, 1, 0], [1, 1, 0], [0, 0, 1, 2], [1, 0, 0, 2], [0, 1], [2, 2, 1, 0, 1], [0, 1, 1, 2, 0], [1, 0, 1, 0]]
+MULTI_FES = [('generic', {'disp': False, 'maxiter': 30}), ('least_squares', {'maxiter': 30}),
+             ('dual_annealing', {'maxiter': 4, 'disp': False}),
+             ('differential_evolution', {'maxiter': 2, 'disp': False, 'workers': 1}),
+             ('compensator:generic', {}), ('compensator:least_squares', {})]
+
+
+def gen_multi_case(rng, i):
+    order = ORDERS[i % len(ORDERS)]
+    fe, kw = MULTI_FES[i % len(MULTI_FES)]
+    nl = max(order) + 1
+    lenses = []
+    for k in range(nl):
+        l = gen_lens(rng, special=False, pickup_p=0.75 if k else 1.0)
+        # the optic reached last in the variable order always carries a pickup or a solve (usually both)
+        if rng.random() < 0.75 or not l['pickups']:
+            l['solve'] = [len(l['surfs']) + 1, 0.0]
+        lenses.append(l)
+    need_b = fe in ('dual_annealing', 'differential_evolution')
+    used = set()
+    vars_ = []
+    for oi in order:
+        l = lenses[oi]
+        last = len(l['surfs'])
+        cand = [c for c in candidate_vars(l) if c[0] in ('radius', 'conic', 'index') or (c[0] == 'thickness' and c[1] < last)]
+        cand = [c for c in cand if (oi, c) not in used and not (c[0] == 'conic' and l['surfs'][c[1] - 1].get('radius') is None)]
+        pref = [c for c in cand if c[0] == 'radius'] if not any(v['optic'] == oi for v in vars_) else cand
+        c = rng.choice(pref or cand)
+        used.add((oi, c))
+        v = mkvar(rng, l, c, bounded=True if need_b else None)
+        if not v['scaled'] and v['type'] in NONID:
+            v['scaled'] = True
+        v['optic'] = oi
+        vars_.append(v)
+    ops = []
+    for k in range(nl):
+        ops.append({'optic': k, 'type': 'f2', 'target': rng.uniform(60, 110), 'weight': rng.uniform(0.5, 2.0), 'data': {}})
+    coords = []
+    for v in vars_:
+        c = dict(coord_of(v), optic=v['optic'])
+        if c not in coords:
+            coords.append(c)
+    for k, l in enumerate(lenses):
+        for p in l['pickups']:
+            for sf in (p[0], p[2]):
+                c = {'type': p[1], 'surf': sf, 'a': 0, 'b': 0, 'optic': k}
+                if c not in coords:
+                    coords.append(c)
+        c = {'type': 'thickness', 'surf': len(l['surfs']), 'a': 0, 'b': 0, 'optic': k}     # moved by the solve
+        if c not in coords:
+            coords.append(c)
+    steps = ['opt'] if fe.startswith('compensator') else rng.choice([['opt', 'undo'], ['opt', 'opt', 'undo', 'undo'], ['opt', 'undo', 'opt']])
+    return {'lenses': lenses, 'vars': vars_, 'ops': ops, 'coords': coords, 'frontend': fe, 'kwargs': kw, 'steps': steps,
+            'np_seed': rng.randrange(10 ** 6), 'order': order}
+
+
+def gen_multi_cases(rng, n):
+    return [gen_multi_case(rng, i) for i in range(n)]
+
+
+def multi_oracle(c, o, ci, hist):
+    """the return contract of C14 on every optic of a multi-optic problem"""
+    out = []
+    fe = c['frontend']
+    vars_ = c['vars']
+
+    def W(clause, si, **kw):
+        hist[clause] = hist.get(clause, 0) + 1
+        d = {'case': ci, 'clause': clause, 'frontend': fe, 'step_index': si, 'variable_optics': c['order'],
+             'violates_property': True, 'replay': {'mode': 'multi', 'case': c}}
+        d.update(kw)
+        out.append(d)
+
+    owners = [v['optic'] for v in vars_]
+    for k, cnt in enumerate(o['update_counts']):
+        want = 1 if k in owners else 0
+        if cnt != want:
+            W('update-optics-coverage', -1, optic=k, updates_in_one_update_optics_call=cnt, expected=want)
+
+    def satisfied(snap, si, when):
+        for k, res in enumerate(snap['pickup_res']):
+            for r in res:
+                if not abs(hx(r)) <= 1e-9 * (1 + max(abs(hx(x)) for x in snap['raw'] if math.isfinite(hx(x)))):
+                    W('pickup', si, optic=k, residual=hx(r), when=when)
+                    return
+        for k, r in enumerate(snap['solve_res']):
+            if r is not None and not abs(hx(r)) <= 1e-7:
+                W('solve', si, optic=k, marginal_ray_height_residual=hx(r), when=when)
+                return
+
+    pre_opt = []
+    stack_model = 0
+    for si, st in enumerate(o['steps']):
+        before, after = st['before'], st['after']
+        bvals = [hx(v) for v in before['values']]
+        avals = [hx(v) for v in after['values']]
+        araw = [hx(v) for v in after['raw']]
+        if st['step'] == 'opt':
+            pre_opt.append(before)
+            stack_model += 1
+            if 'error' in st:
+                ob = [(hx(b_[0]), hx(b_[1])) for b_ in o['bounds']]
+                on_b = any((lo is not None and near(xv, lo, 1e-13)) or (hi is not None and near(xv, hi, 1e-13)) for xv, (lo, hi) in zip(bvals, ob))
+                if st['error'][0] == 'ValueError' and si > 0 and on_b and 'x0' in st['error'][1]:
+                    hist['restart-from-bound-raise(SciPy rejects x0 on a bound)'] = hist.get('restart-from-bound-raise(SciPy rejects x0 on a bound)', 0) + 1
+                    continue
+                W('exception', si, error=st['error'])
+                continue
+            x = [hx(v) for v in st['x']]
+            fun = hx(st['fun'])
+            f0 = hx(before['merit'])
+            lm = hx(after['merit'])
+            log = [([float.fromhex(t) for t in p], float.fromhex(f)) for p, f in st['log']]
+            at_x = [f for p, f in log if all(a == b or near(a, b, 1e-15) for a, b in zip(p, x))]
+            if at_x and not any(near_merit(f, fun, 1e-12) for f in at_x):
+                hist['scipy-result-inconsistent(fun != logged f(x*))'] = hist.get('scipy-result-inconsistent(fun != logged f(x*))', 0) + 1
+                good = [f for f in at_x if near_merit(f, lm)]
+                fun = good[-1] if good else at_x[-1]
+            if not (all(near(a, b) for a, b in zip(avals, x)) and near_merit(lm, fun)):
+                W('state', si, returned_x=x, objective_at_x=fun, lens_values=avals, lens_merit=lm)
+            if 'least_squares' in fe and log:
+                sb = [spec_bounds(v) for v in vars_]
+                if any((lo is not None and abs(xv - lo) <= 1e-9 * max(1.0, abs(lo))) or (hi is not None and abs(xv - hi) <= 1e-9 * max(1.0, abs(hi)))
+                       for xv, (lo, hi) in zip(bvals, sb)):
+                    f0 = max(f0, log[0][1])
+            if not (fun <= f0 * (1 + 1e-12) + 1e-300 or near_merit(fun, f0, 1e-9)):
+                W('not-worse', si, start=f0, objective_at_x=fun)
+            for i, v in enumerate(vars_):
+                r = araw[c['coords'].index(dict(coord_of(v), optic=v['optic']))]
+                lo, hi = v.get('min'), v.get('max')
+                tol = 1e-9 * max(abs(lo or 0.0), abs(hi or 0.0), abs(r)) + 1e-300
+                if (lo is not None and r < lo - tol) or (hi is not None and r > hi + tol):
+                    W('bounds', si, var=v, lens_value=r)
+                    break
+            satisfied(after, si, 'after optimise')
+        elif st['step'] == 'undo':
+            if 'error' in st:
+                W('exception', si, error=st['error'])
+                continue
+            ref = pre_opt.pop() if pre_opt else before
+            stack_model = max(0, stack_model - 1)
+            rraw = [hx(v) for v in ref['raw']]
+            mag = max([1.0] + [abs(r) for r in rraw + araw if math.isfinite(r)])
+            diff = [i for i, (a, b) in enumerate(zip(araw, rraw)) if not near(a, b, max(1e-9, 1e-14 * mag))]
+            if diff or not near_merit(hx(after['merit']), hx(ref['merit']), 1e-8):
+                W('undo', si, differing=[c['coords'][i] for i in diff], lens=[araw[i] for i in diff], before_run=[rraw[i] for i in diff])
+            satisfied(after, si, 'after undo')
+        if st.get('stack') is not None and st['stack'] != stack_model:
+            W('undo-stack', si, stack=st['stack'], expected=stack_model)
+    return out
+
+
+def check_multi(cases, obs, tag):
+    """Coq side: update_optics model (dedup of the owners) against the observed update() calls, and the repaired
+    state machine on the joint state of all lenses (coordinates of optic k are shifted by 1000*k)"""
+    B = Bools()
+    hist = {}
+
+    def shifted(v_or_c, k):
+        d = dict(v_or_c)
+        d['surf'] = d['surf'] + 1000 * k
+        return d
+    for ci, (c, o) in enumerate(zip(cases, obs)):
+        if 'err' in o:
+            continue
+        o = o['ok']
+        owners = cq_list([f"{v['optic']}%Z" for v in c['vars']])
+        for k, cnt in enumerate(o['update_counts']):
+            B.add((ci, 'count', k), f'(Z.of_nat (count_occ Z.eq_dec (dedup {owners}) {k}%Z) =? {cnt})%Z')
+        vs = cq_list([cq_var(shifted(v, v['optic'])) for v in c['vars']])
+        cs = [shifted(x, x['optic']) for x in c['coords']]
+        for si, st in enumerate(o['steps']):
+            if st['step'] == 'opt' and 'x' in st:
+                s_before = cq_store(cs, st['before']['raw'])
+                tr = cq_list([f'(true, {cq_floats(x)})' for x, _ in st['log']])
+                B.add((ci, si, 'fixed'), f'close_list TOL (getv {vs} (optimize_fixed (fun s => s) {vs} {tr} {cq_floats(st["x"])} ({s_before}))) '
+                                         f'{cq_floats(st["after"]["values"])}')
+    bad = B.run(tag)
+    dis = []
+    nontrivial = 0
+    for ci, (c, o) in enumerate(zip(cases, obs)):
+        if 'err' in o:
+            dis.append({'case': ci, 'clause': 'harness', 'error': o, 'violates_property': False, 'replay': {'mode': 'multi', 'case': c}})
+            continue
+        ws = multi_oracle(c, o['ok'], ci, hist)
+        dis += ws
+        labels = [b for b in bad if b[0] == ci]
+        flagged = {w['clause'] for w in ws}
+        for b in labels:
+            if b[1] == 'count' and 'update-optics-coverage' in flagged:
+                continue
+            if len(b) == 3 and b[2] == 'fixed' and 'state' in flagged:
+                continue
+            dis.append({'case': ci, 'clause': 'model-multi', 'label': [str(x) for x in b], 'violates_property': False,
+                        'replay': {'mode': 'multi', 'case': c}})
+        if any(st['step'] == 'opt' and 'x' in st for st in o['ok']['steps']):
+            nontrivial += 1
+    return dis, nontrivial, hist
+
+
 def run_opt_cases(cases, tag):
     obs = vlib.run_python(HARNESS, {'mode': 'opt', 'cases': cases}, timeout=1500)
     for o in obs:
@@ -976,6 +1183,26 @@ def system_checks(ctx):
     except RuntimeError as e:
         res['error'] = str(e)
     yield res
+    # (c0) problems spanning several optics
+    cases = gen_multi_cases(rng, ctx.n(9, 72))
+    res = {'name': 'multi-optic-problems', 'n': len(cases), 'nontrivial': 0, 'samples': [], 'disagreements': []}
+    try:
+        obs = vlib.run_python(HARNESS, {'mode': 'multi', 'cases': cases}, timeout=1500)
+        res['disagreements'], res['nontrivial'], hist = check_multi(cases, obs, 'C14x')
+        orders = {}
+        for c in cases:
+            k = ''.join('ABC'[i] for i in c['order'])
+            orders[k] = orders.get(k, 0) + 1
+        fes = {}
+        for c in cases:
+            fes[c['frontend']] = fes.get(c['frontend'], 0) + 1
+        res['histogram'] = {'variable_optic_orders': orders, 'frontends': fes, 'clauses_violated': hist,
+                            'optics_with_pickup': sum(1 for c in cases for l in c['lenses'] if l['pickups']),
+                            'optics_with_solve': sum(1 for c in cases for l in c['lenses'] if l.get('solve'))}
+        res['samples'] = [{'variable_optics': cases[0]['order'], 'frontend': cases[0]['frontend'], 'steps': cases[0]['steps']}]
+    except RuntimeError as e:
+        res['error'] = str(e)
+    yield res
     # (c) optimise / undo
     cases = gen_opt_cases(rng, ctx.n(21, 210)) + gen_boundary_opt_cases(rng, ctx.n(10, 60))
     res = {'name': 'optimise-undo-vs-model', 'n': len(cases), 'nontrivial': 0, 'samples': [], 'disagreements': []}
@@ -1014,6 +1241,11 @@ def search(ctx, broken, disagreements):
     for ci, (c, o) in enumerate(zip(cases, obs)):
         if 'ok' in o:
             found += [w for w in opt_oracle(c, o['ok'], set(), ci, hist) if w.get('violates_property')]
+    cases = gen_multi_cases(rng, ctx.n(18, 72))
+    obs = vlib.run_python(HARNESS, {'mode': 'multi', 'cases': cases}, timeout=1500)
+    for ci, (c, o) in enumerate(zip(cases, obs)):
+        if 'ok' in o:
+            found += multi_oracle(c, o['ok'], ci, {})
     # unexplained violations first
     found.sort(key=lambda w: 0 if not w.get('explained') else 1)
     return found[:12] or None
